@@ -23,11 +23,11 @@ import (
 func init() { checks["C09"] = c09 }
 
 type c09Case struct {
-	Postings  ledger.Postings
+	Postings   ledger.Postings
 	BalA, BalB *big.Int
-	Meta      metadata.Metadata
-	Ref       string
-	TS        ledger.Time
+	Meta       metadata.Metadata
+	Ref        string
+	TS         ledger.Time
 }
 
 func seedBalances(a, b *big.Int) *memstore.Store {
@@ -68,7 +68,7 @@ func c09Expect(c *c09Case) bool {
 			b.Sub(b, p.Amount)
 		}
 		if p.Destination != "world" {
-			get(p.Destination + "|" + p.Asset).Add(get(p.Destination+"|"+p.Asset), p.Amount)
+			get(p.Destination+"|"+p.Asset).Add(get(p.Destination+"|"+p.Asset), p.Amount)
 		}
 	}
 	return true
@@ -132,6 +132,18 @@ func c09() int {
 			}
 		}
 	}
+	// longer lists (4..6 postings): chains (each posting spends what the previous one brought) and fans of distinct postings
+	{
+		names := []string{"world", "a", "b", "a", "b", "a", "b"}
+		for n := 4; n <= 6; n++ {
+			var chain, fan ledger.Postings
+			for i := 0; i < n; i++ {
+				chain = append(chain, ledger.NewPosting(names[i], names[i+1], "X", big.NewInt(5)))
+				fan = append(fan, ledger.NewPosting("world", []string{"a", "b"}[i%2], "X", big.NewInt(int64(i+1))))
+			}
+			lists = append(lists, chain, fan)
+		}
+	}
 	// look-alike monetaries: assets ending in digits x amounts whose texts concatenate to the same string ("X"+"15" / "X1"+"5")
 	var twins []ledger.Posting
 	for _, d := range []string{"a", "b"} {
@@ -190,7 +202,7 @@ func c09() int {
 	cov := evid.Coverage{
 		"evaluations":         int(evals),
 		"distinct_nontrivial": int(accepted),
-		"rule":                fmt.Sprintf("every posting list of length 1..2 over accounts {a,b,world} (self-transfers, world on either side) x assets {X,Y/2} x amounts {0,1,5,2^70}, every list of length 3 over the X-only alphabet, x starting balances of a,b in {0,5,2^70}, each plain through Commander.CreateTransaction and with metadata+reference+timestamp through the v1 / v2 HTTP handlers, on a real Commander over memstore; plus a list of invalid requests; non-trivial = accepted requests (%d rejected)", rejected),
+		"rule":                fmt.Sprintf("every posting list of length 1..2 over accounts {a,b,world} (self-transfers, world on either side) x assets {X,Y/2} x amounts {0,1,5,2^70}, every list of length 3 over the X-only alphabet, chains and fans of 4..6 postings, x starting balances of a,b in {0,5,2^70}, each plain through Commander.CreateTransaction and with metadata+reference+timestamp through the v1 / v2 HTTP handlers, on a real Commander over memstore; plus a list of invalid requests; non-trivial = accepted requests (%d rejected)", rejected),
 		"samples":             samples.Got,
 		"exhaustive":          true,
 		"posting_lists":       len(lists),
